@@ -54,7 +54,7 @@ theorem stepLocal_keys (F : Flags) (o : Obs) (x : Act) (ev : Ev) (y : Act) (eff 
     (∀ k, x.waitsFor = some k → y.waitsFor = some k) ∧
     (∀ k, eff = .reg k → y.key = some k) := by
   steplocal_cases h
-  all_goals (try (simp_all [preStart, Act.stop]; done))
+  all_goals (try (simp_all [preStart, Act.stop, Act.stopDeps]; done))
   all_goals first
     | exact keys_same o x _ _ _ (next_static _ _ _).2.2.1 (next_static _ _ _).2.2.2.1
         (next_static _ _ _).2.2.2.2.2.2 (by intro k e; cases e)
@@ -96,7 +96,7 @@ theorem callOk_local (F : Flags) (o : Obs) (x : Act) (ev : Ev) (y : Act) (eff : 
     (hw : WF x) (_hc : CallOk x) (h : stepLocal F o x ev = some (y, eff)) : CallOk y := by
   unfold CallOk at _hc ⊢
   steplocal_cases h
-  all_goals (try (simp_all [Act.stop]; done))
+  all_goals (try (simp_all [Act.stop, Act.stopDeps]; done))
   all_goals (try (first
     | (intro i d hp; exact absurd hp (afterPhase_ne_inCall (next_static _ _ _).2.2.2.2.2.2 i d))
     | (intro i d hp; exact absurd hp (afterPhase_ne_inCall (afterCmd_static _ _ _).2.2.2.2.2 i d))
@@ -239,7 +239,7 @@ theorem stepLocal_depsJoined (F : Flags) (o : Obs) (x : Act) (ev : Ev) (y : Act)
     (h : stepLocal F o x ev = some (y, eff)) (hy : y.phase = .depsJoined) :
     x.phase = .depsWait ∧ (o.deps ()).isSome = true := by
   steplocal_cases h
-  all_goals (try (simp_all [Act.stop]; done))
+  all_goals (try (simp_all [Act.stop, Act.stopDeps]; done))
   all_goals first
     | exact absurd hy (afterPhase_ne_depsJoined (next_static _ _ _).2.2.2.2.2.2)
     | exact absurd hy (afterPhase_ne_depsJoined (afterCmd_static _ _ _).2.2.2.2.2)
